@@ -191,26 +191,7 @@ class Scenario(object):
         vrt.pump_all()
 
     def snapshot(self, c):
-        ch = self.chans[c]
-        conn = self.conn
-
-        def errs(lst):
-            out = []
-            for e in lst:
-                ec = err_coq(e)
-                out.append(ec if ec else '{| e_kind := EChan; e_code := Some (-2)%Z |}')
-            return coq_list(out)
-        tags = [t.encode() if isinstance(t, str) else t for t in ch.consumer_tags]
-        return ('{| sn_state := %s; sn_tags := %s; sn_inbound := %s; sn_req := %s; '
-                'sn_resp := %s; sn_errs := %s; sn_confirm := %s; sn_conn := %s; '
-                'sn_cerrs := %s; sn_registered := %s |}' % (
-                    STATES[ch.current_state],
-                    coq_list([coq_bytes(t) for t in tags]),
-                    coq_nat(len(ch._inbound)), coq_nat(len(ch.rpc._request)),
-                    coq_nat(len(ch.rpc._response)), errs(ch.exceptions),
-                    coq_bool(ch.confirming_deliveries),
-                    STATES[conn.current_state], errs(conn.exceptions),
-                    coq_bool(conn._channels.get(c) is ch)))
+        return snap_of(self.conn, self.chans[c], c)
 
     def run_step(self, step):
         c, op, script = step
@@ -317,6 +298,29 @@ class Scenario(object):
             self.conn.heartbeat.stop()
         except Exception:
             pass
+
+
+def snap_of(conn, ch, c=None):
+    """The channel/connection state the model's `snap` record describes."""
+    c = int(ch) if c is None else c
+
+    def errs(lst):
+        out = []
+        for e in lst:
+            ec = err_coq(e)
+            out.append(ec if ec else '{| e_kind := EChan; e_code := Some (-2)%Z |}')
+        return coq_list(out)
+    tags = [t.encode() if isinstance(t, str) else t for t in ch.consumer_tags]
+    return ('{| sn_state := %s; sn_tags := %s; sn_inbound := %s; sn_req := %s; '
+            'sn_resp := %s; sn_errs := %s; sn_confirm := %s; sn_conn := %s; '
+            'sn_cerrs := %s; sn_registered := %s |}' % (
+                STATES[ch.current_state],
+                coq_list([coq_bytes(t) for t in tags]),
+                coq_nat(len(ch._inbound)), coq_nat(len(ch.rpc._request)),
+                coq_nat(len(ch.rpc._response)), errs(ch.exceptions),
+                coq_bool(ch.confirming_deliveries),
+                STATES[conn.current_state], errs(conn.exceptions),
+                coq_bool(conn._channels.get(c) is ch)))
 
 
 def msgs_coq(got):
